@@ -7,6 +7,7 @@ import PG.Spec.Format
 import PG.Lemmas.WriterInv
 import PG.Lemmas.FormatL
 import PG.Lemmas.FormatL2
+import PG.Lemmas.DebugL
 namespace PG
 
 /-- For every mapping in the representable domain (tables within the `u32` counters) the
@@ -36,5 +37,11 @@ theorem C09_selftest (recs : List Record) (hr : ReprR recs) (hs : (Tables.build 
   rw [e, h] at hc
   cases hc
   exact FL.selfTest_build recs hr hs
+
+/-- …and the `Display` view of the cache (`ProguardCache::display`, src/cache/debug.rs), which
+    `unwrap()`s its name reads, never panics on such a file. -/
+theorem C09_display_total (recs : List Record) (hr : ReprR recs) (hs : (Tables.build recs).Small)
+    (c : Cache) (hc : Cache.parse (Cache.write recs) = .ok c) : c.display.isSome = true :=
+  Cache.display_total_of_selfTest c (C09_selftest recs hr hs c hc)
 
 end PG
